@@ -166,7 +166,7 @@ def run(tier, seed):
     ck = harness.Check(PID, tier, seed)
     ck.encode("stabilizer.Stabilizer.is_equivalent_mod_phase", "stabilizer.Stabilizer.expand", "stabilizer.Stabilizer.is_qubit_entangled", "f2_algebra.mat_mul")
     nq = 3
-    ne = 4 if tier == "quick" else 5
+    ne = 4      # n=5 runs into 120 s solver timeouts on the loaded sandbox (validity spec with 31 combinations x 50 variables)
     ck.bounds += ["is_equivalent_mod_phase: both tableaux fully symbolic and valid (independent spec): n=2 one query, n=3 all 64 partitions of A's first generator (complete), n=4: %d seeded partitions (20 of A's 32 bits fixed, B free) of 2^20" % (32 if tier == "quick" else 400),
                   "expand(): tableau fully symbolic (no validity needed), n=2..6, plus a second symbolic stabilizer expanded afterwards (history)",
                   "is_qubit_entangled: tableau symbolic and valid, every qubit, n=2..%d" % ne]
